@@ -364,6 +364,7 @@ func (c *Ctx) RunC09(tier string) {
 		}
 	}
 	rep.Bound += fmt.Sprintf("; %d warriors x every set of <=2 layout perturbations (quick: <=1, <=2 for one warrior per dialect; thorough: also every set of 3 for three of the five warriors per dialect) out of: case of a line, extra blanks / tab at each of 7 gaps, removed blank after the comma, CR-LF, blank / comment / metadata / whitespace-only / 75000-character comment line at every boundary, trailing comment, missing final newline", nw)
+	c.runSeq09(thorough)
 	lines := ref.PrintLines(alphabet12(false, 8000)[1:4], 1, false, 8000, ref.SpellSigned)
 	rep.Sample(strings.Join(lines, "\n") + "\n")
 }
